@@ -45,7 +45,7 @@ def node(i: int) -> Any:
     return st.fixed_dictionaries(dict(
         style=st.sampled_from(["sync", "async", "gen", "agen", "cm", "acm", "gen", "agen"]),
         ctx=st.just(False), sleep=st.sampled_from([0, 0, 0.05]), tsleep=st.sampled_from([0, 0, 0, 0.8]),
-        fail=st.sampled_from([None, None, None, None, None, "before"]), swallow=st.booleans(),
+        fail=st.sampled_from([None, None, None, None, None, "before"]), swallow=st.booleans(), affine=st.sampled_from([False, False, True]),
         fail_exc=st.sampled_from(["RuntimeError", "RuntimeError", "TimeoutError", "KeyError", "asyncio.CancelledError", "ConnectionError"]),
         deps=st.lists(st.tuples(st.integers(0, max(i - 1, 0)), st.sampled_from([True, True, False])).map(list), max_size=2 if i > 0 else 0, unique_by=lambda x: x[0]),
     ))
